@@ -684,9 +684,20 @@ class SurrogatesFamily:
         s = Surrogates(original_data=self._data(), silence_level=3)
         if a["NORM"]:
             s.normalize_original_data()
+        if a.get("EMB"):
+            s.embedding = self._foreign(s, a["EMB"])
         return s
 
+    @staticmethod
+    def _foreign(s, v):
+        """An embedding other than the one the twin queries ask for: dimension 3 / delay 1, or dimension 2 / delay 3."""
+        dim, tau = {1: (3, 1), 2: (2, 3)}[v]
+        return s.embed_time_series_array(s.original_data, dim, tau)
+
     def mutate(self, obj, m, v):
+        if m == "embedding":
+            obj.embedding = self._foreign(obj, v)
+            return
         if m != "normalize_original_data":
             raise ValueError(m)
         obj.normalize_original_data()
@@ -757,6 +768,8 @@ def apply_abs(a, m, v):
         a["WIN"] = 0
     elif m == "normalize_original_data":
         a["NORM"] = 1
+    elif m == "embedding":
+        a["EMB"] = v
     elif m in ("set_winter_only", "set_directed", "set_max_delay"):
         a[{"set_winter_only": "WO", "set_directed": "DIR", "set_max_delay": "MD"}[m]] = v
         if a.get("MODE") in ("link_density", "kept_threshold"):
